@@ -7,6 +7,7 @@ automaton AND with `to_markup` of the model's current machine; the machine is re
 `Machine(markup=json.loads(json.dumps(markup)))`, its markup compared again, and a random
 event history is run on the original and on the rebuilt machine (callbacks by name on the
 model classes of this module record traces)."""
+import asyncio
 import contextlib
 import copy
 import enum
@@ -24,7 +25,9 @@ RULE = ('cases = random flat (1-5 states) or hierarchical (2-4 top-level states,
         'parallel compounds, initial substates, final flags, on_final) machine descriptions with distinct named '
         'callbacks in every slot (state on_enter/on_exit/on_final, transition conditions/unless/prepare/before/'
         'after, six machine-level lists), every option (send_event, auto_transitions, model_attribute, '
-        'model_override, ignore_invalid_triggers None/False/True at both levels, queued, name), internal / '
+        'model_override, ignore_invalid_triggers None/False/True at both levels, queued False/True and - on the '
+        'asyncio variants of the two classes, 25% of the cases - "model", name; each option is also read back from the '
+        'original and the rebuilt machine object), internal / '
         'reflexive / nested local transitions, 1-3 models of 3 classes in arbitrary (resolved) states x a script '
         '(state names are drawn from plain letters or from a pool that stresses the auto-transition heuristic: names '
         'starting with t / o / _, containing "to_", prefixes and suffixes of each other; user events that resemble '
@@ -99,7 +102,8 @@ def generated_hook():
 
 
 # ------------------------------------------------------------------ model classes (importable by dotted path)
-ENV = {'seed': 0, 'trace': [], 'count': 0, 'attr': 'state', 'paths': {}}
+ENV = {'seed': 0, 'trace': [], 'count': 0, 'attr': 'state', 'paths': {}, 'async': False, 'models': [], 'xevents': {},
+       'depth': 0, 'xbudget': 0}
 
 
 def _norm(st):
@@ -119,8 +123,55 @@ def _mix(seed, name, n):
     return h
 
 
+def _x_target(model, name):
+    """x<n>: a callback that triggers an event on the NEXT model of the machine (on itself if there is only one) -
+    this is where one global queue and one queue per model differ"""
+    models = ENV['models']
+    idx = [i for i, x in enumerate(models) if x is model]
+    other = models[(idx[0] + 1) % len(models)] if idx else model
+    return other, ENV['xevents'].get(name, 'e0')
+
+
+def _x_record(model, name, other, res):
+    attr = ENV['attr']
+    ENV['trace'].append([name, repr(_norm(getattr(model, attr, None))), res, repr(_norm(getattr(other, attr, None)))])
+
+
 class _Base(object):
     def __getattr__(self, name):
+        if len(name) >= 2 and name[0] == 'x' and name[1:].isdigit():
+            if ENV['async']:
+                async def axcb(*args, **kwargs):
+                    ENV['count'] += 1
+                    other, ev = _x_target(self, name)
+                    if ENV['depth'] >= 2 or ENV['xbudget'] <= 0:
+                        return _x_record(self, name, other, 'skip')
+                    ENV['depth'] += 1
+                    ENV['xbudget'] -= 1
+                    try:
+                        res = repr(await other.trigger(ev))
+                    except Exception as e:  # types only
+                        res = type(e).__name__
+                    finally:
+                        ENV['depth'] -= 1
+                    _x_record(self, name, other, res)
+                return axcb
+
+            def xcb(*args, **kwargs):
+                ENV['count'] += 1
+                other, ev = _x_target(self, name)
+                if ENV['depth'] >= 2 or ENV['xbudget'] <= 0:
+                    return _x_record(self, name, other, 'skip')
+                ENV['depth'] += 1
+                ENV['xbudget'] -= 1
+                try:
+                    res = repr(other.trigger(ev))
+                except Exception as e:  # types only
+                    res = type(e).__name__
+                finally:
+                    ENV['depth'] -= 1
+                _x_record(self, name, other, res)
+            return xcb
         if len(name) >= 2 and name[0] in 'kq' and name[1:].isdigit():
             def cb(*args, **kwargs):
                 ENV['count'] += 1
@@ -178,6 +229,15 @@ def O(x, f=lambda y: y):
     return [] if x is None else [f(x)]
 
 
+QCODE = {False: 0, True: 1, 'model': 2}      # the `queued` option
+
+
+def _qcode(v):
+    if v is False or v is True or v == 'model':
+        return QCODE[v]
+    raise ValueError('unexpected value of queued in the markup: %r' % (v,))
+
+
 def enc_init(i):
     if i is None:
         return []
@@ -219,7 +279,7 @@ def enc_sdict(s):
 
 def enc_desc(d):
     return [SL(d[k]) for k in LIST_KEYS] + [
-        bool(d['send']), bool(d['auto']), S(d['attr']), bool(d['override']), O(d['ignore'], bool), bool(d['queued']),
+        bool(d['send']), bool(d['auto']), S(d['attr']), bool(d['override']), O(d['ignore'], bool), QCODE[d['queued']],
         [[enc_mstate(m['state']), S('c14.' + m['cls'])] for m in d['models']],
         enc_init(d['initial']), O(d['name'], S),
         [enc_tdict(t) for t in d['transitions']], [enc_sdict(s) for s in d['states']]]
@@ -303,7 +363,7 @@ def enc_real_markup(mk, hsm):
             raise ValueError('model keys %r' % sorted(m))
     return [SL(mk[k]) for k in MACHINE_LISTS] + [
         mk['send_event'] is True, mk['auto_transitions'] is True, S(mk['model_attribute']),
-        mk['model_override'] is True, O(mk['ignore_invalid_triggers'], bool), mk['queued'] is True,
+        mk['model_override'] is True, O(mk['ignore_invalid_triggers'], bool), _qcode(mk['queued']),
         [[_mstate_of(m['state'], hsm), S(m['class-name'])] for m in mk['models']],
         enc_init(mk.get('initial')), O(mk.get('name'), S),
         [_enc_real_trans(t) for t in mk['transitions']], [_enc_real_state(s) for s in mk['states']]]
@@ -435,29 +495,96 @@ def _apply_op(m, o, hsm, reads, nm):
         raise ValueError(o)
 
 
-def _run_history(m, hist, seed, attr):
-    ENV.update(seed=seed, trace=[], count=0, attr=attr)
+def _run_history(m, hist, seed, attr, use_async, xevents):
+    ENV.update({'seed': seed, 'trace': [], 'count': 0, 'attr': attr, 'async': use_async, 'models': list(m.models),
+                'xevents': xevents, 'depth': 0})
     steps = []
+
+    def record(res, n0):
+        steps.append([res, ENV['trace'][n0:], [repr(_norm(getattr(x, attr, None))) for x in m.models]])
+
+    if use_async:
+        async def run():
+            for mi, ev in hist:
+                if mi >= len(m.models):
+                    steps.append('no-model')
+                    continue
+                n0 = len(ENV['trace'])
+                ENV['xbudget'] = 3       # per step: queued machines would otherwise play ping-pong for ever
+                try:
+                    res = repr(await m.models[mi].trigger(ev))
+                except Exception as e:  # compare exception types only
+                    res = type(e).__name__
+                record(res, n0)
+        asyncio.run(run())
+        return steps
     for mi, ev in hist:
         if mi >= len(m.models):
             steps.append('no-model')
             continue
-        mod = m.models[mi]
         n0 = len(ENV['trace'])
+        ENV['xbudget'] = 3
         try:
-            r = mod.trigger(ev)
-            res = repr(r)
+            res = repr(m.models[mi].trigger(ev))
         except Exception as e:  # compare exception types only
             res = type(e).__name__
-        steps.append([res, ENV['trace'][n0:], [repr(_norm(getattr(x, attr, None))) for x in m.models]])
+        record(res, n0)
     return steps
 
 
-def impl_c14(case):
-    _import_transitions()
+_ASYNC_CLASSES = {}
+
+
+def _machine_class(hsm, use_async):
     from transitions.extensions.markup import MarkupMachine, HierarchicalMarkupMachine
+    if not use_async:
+        return HierarchicalMarkupMachine if hsm else MarkupMachine
+    if not _ASYNC_CLASSES:
+        from transitions.extensions.asyncio import AsyncMachine, HierarchicalAsyncMachine
+
+        # composed like transitions.extensions.factory composes the graph variants
+        class AsyncMarkupMachine(MarkupMachine, AsyncMachine):
+            pass
+
+        class HierarchicalAsyncMarkupMachine(HierarchicalMarkupMachine, HierarchicalAsyncMachine):
+            pass
+        _ASYNC_CLASSES.update({False: AsyncMarkupMachine, True: HierarchicalAsyncMarkupMachine})
+    return _ASYNC_CLASSES[hsm]
+
+
+def _options(m):
+    return [m.has_queue, m.send_event, m.auto_transitions, m.ignore_invalid_triggers, m.model_attribute,
+            m.model_override, m.name]
+
+
+class HarnessTimeout(BaseException):
+    pass
+
+
+def impl_c14(case):
+    """watchdog: a hanging library call becomes a harness error (= a disagreement), never a hanging check"""
+    import signal
+
+    def on_alarm(signum, frame):
+        raise HarnessTimeout('implementation run exceeded 60 s')
+    try:
+        old = signal.signal(signal.SIGALRM, on_alarm)
+        signal.setitimer(signal.ITIMER_REAL, 60, 5)
+    except ValueError:          # not in the main thread
+        old = None
+    try:
+        return _impl_c14(case)
+    finally:
+        if old is not None:
+            signal.setitimer(signal.ITIMER_REAL, 0)
+            signal.signal(signal.SIGALRM, old)
+
+
+def _impl_c14(case):
+    _import_transitions()
     hsm = case['hsm']
-    cls = HierarchicalMarkupMachine if hsm else MarkupMachine
+    use_async = bool(case.get('async'))
+    cls = _machine_class(hsm, use_async)
     d = case['desc']
     ENV['paths'] = {}
     nm = Names(bool(case.get('enum')), hsm)
@@ -486,10 +613,15 @@ def impl_c14(case):
     m2 = cls(markup=json.loads(json.dumps(final)))
     rebuilt = json.loads(json.dumps(m2.markup))
     e_rebuilt = enc_real_markup(rebuilt, hsm)
-    h1 = _run_history(m, case['hist'], case['seed'], d['attr'])
-    h2 = _run_history(m2, case['hist'], case['seed'], d['attr'])
+    # every scalar constructor option, as the machine objects hold it, against what was passed
+    passed = [d['queued'], d['send'], d['auto'], d['ignore'], d['attr'], d['override'],
+              d['name'] + ': ' if d['name'] is not None else '']
+    opts = [_options(m) == passed, _options(m2) == passed]
+    xev = case.get('xevents', {})
+    h1 = _run_history(m, case['hist'], case['seed'], d['attr'], use_async, xev)
+    h2 = _run_history(m2, case['hist'], case['seed'], d['attr'], use_async, xev)
     beh = (h1 == h2)
-    obs = [1, reads, [e_final, e_final], e_rebuilt, beh]
+    obs = [1, reads, [e_final, e_final], e_rebuilt, [beh] + opts]
     return from_sx(to_sx(obs))
 
 
@@ -613,6 +745,9 @@ def gen(rng, i, tier):
     if kf == 2:
         auto = False
     override = r.random() < 0.15
+    # asyncio variants (MarkupMachine + AsyncMachine, composed like the factory does): queued may be 'model'
+    use_async = kf == 0 and r.random() < 0.25
+    queued = r.choice([False, True, 'model']) if use_async else r.random() < 0.3
     ntop = r.randint(2, 4) if hsm else r.randint(1, 5)
     # enum mode: every state of the description (and every state added later) is given as an Enum member, in
     # 'name', 'initial' (single member or list of members), 'parallel' / 'children', transition sources and
@@ -658,10 +793,17 @@ def gen(rng, i, tier):
     classes = ['ModelOA', 'ModelOB'] if override else ['ModelA', 'ModelB', 'ModelC']
     models = [dict(state=resolve(states, r.choice(paths)), cls=r.choice(classes)) for _ in range(r.randint(1, 3))]
     desc = dict(send=r.random() < 0.3, auto=auto, attr=attr, override=override, ignore=mign,
-                queued=r.random() < 0.3, models=models, initial=ini, name=r.choice([None, None, 'mach']),
+                queued=queued, models=models, initial=ini, name=r.choice([None, None, 'mach']),
                 transitions=transitions, states=states)
     for k in LIST_KEYS:
         desc[k] = g.cbs(2, 0.6)
+    # callbacks that trigger an event on another model (global queue vs one queue per model vs no queue)
+    xevents = {}
+    if kf == 0 and transitions and r.random() < 0.25:
+        for n in range(r.randint(1, 2)):
+            name = 'x%d' % (n + 1)
+            xevents[name] = r.choice(sorted({t['trigger'] for t in transitions}))
+            r.choice(transitions)[r.choice(['before', 'after'])].append(name)
     # ---- script of later operations, tracked on a shadow copy so that they stay valid
     sh_states = copy.deepcopy(states)
     root_ev = {}                      # trigger -> list of (source, dest) at root scope
@@ -771,7 +913,8 @@ def gen(rng, i, tier):
     if kf == 2:
         evs += [t['trigger'] for t in transitions if t['trigger'].startswith('to_')] * 3
     hist = [[r.randrange(nmodels), r.choice(evs)] for _ in range(r.randint(3, 10))]
-    return dict(hsm=hsm, desc=desc, ops=ops, hist=hist, seed=r.randrange(1000), kf_stream=kf, enum=use_enum)
+    return dict(hsm=hsm, desc=desc, ops=ops, hist=hist, seed=r.randrange(1000), kf_stream=kf, enum=use_enum,
+                xevents=xevents, **{'async': use_async})
 
 
 def _drop_nested(states, trg):
@@ -832,6 +975,7 @@ class Obs(list):
     """canonical implementation observation: the compared part is the list (all markups); the result of the
     behaviour differential (original vs rebuilt machine) travels beside it for the oracle"""
     beh = True
+    opts = (True, True)
 
 
 def canon(case, obs):
@@ -848,7 +992,8 @@ def canon(case, obs):
         return out
     if isinstance(obs, list) and len(obs) == 5:          # implementation
         o = Obs(obs[:4])
-        o.beh = bool(obs[4])
+        o.beh = bool(obs[4][0])
+        o.opts = (bool(obs[4][1]), bool(obs[4][2]))
         return o
     return obs
 
@@ -876,6 +1021,11 @@ def oracle(case, obs):
         return None
     if obs[3] != obs[2][0]:
         return 'roundtrip: the machine rebuilt from the JSON round trip of the markup has a different markup'
+    opts = getattr(obs, 'opts', (True, True))
+    if not opts[0]:
+        return 'options: the machine does not hold the constructor options that were passed'
+    if not opts[1]:
+        return 'roundtrip: a constructor option of the rebuilt machine differs from the value passed to the original'
     if not getattr(obs, 'beh', True):
         return 'roundtrip: the rebuilt machine reacts differently to the event history'
     return None
@@ -915,7 +1065,12 @@ def stats(case, obs, dist):
     inc('history_events', len(case['hist']))
     if getattr(obs, 'beh', False):
         inc('behaviour_equal')
-    for k in ('send', 'auto', 'override', 'queued'):
+    if case.get('async'):
+        inc('async')
+    if case.get('xevents'):
+        inc('cross_model_trigger_callbacks')
+    inc('queued_%s' % case['desc']['queued'])
+    for k in ('send', 'auto', 'override'):
         if case['desc'][k]:
             inc('opt_' + k)
     inc('ignore_%s' % case['desc']['ignore'])
